@@ -19,6 +19,12 @@ func main() {
 		os.Exit(2)
 	}
 	switch os.Args[1] {
+	case "pp":
+		ppMain(os.Args[2:])
+	case "lex":
+		lexMain(os.Args[2:])
+	case "lexworker":
+		lexWorkerMain(os.Args[2:])
 	case "probe":
 		probeMain(os.Args[2:])
 	default:
